@@ -256,6 +256,8 @@ class Driver(object):
             pairs = []
             for _ in range(n):
                 s, t = u.page(), u.page()
+                if rng.random() < self.profile.get("homelinks", 0.2):
+                    t = u.host_prefix()          # links to home pages: targets that are webentity prefixes
                 if rng.random() < 0.15:
                     t = s
                 pairs.append((s, t))
@@ -378,6 +380,8 @@ class Driver(object):
             ps = list(we[w])
             rng.shuffle(ps)
             k = rng.choice([1, 1, 1, 2, 2, 3, 0]) if rng.random() < 0.93 else rng.choice([4, 5, 8])
+            if name == "PagLinks" and rng.random() < 0.35:
+                k = rng.choice([0, 0, 4, 6])     # answers spanning many source pages
             if name == "Paginate":
                 return {"op": name, "id": w, "ps": ps, "k": k, "co": rng.random() < 0.3, "token": None}
             io = rng.choice([(True, False), (True, True), (False, True)])
